@@ -512,8 +512,8 @@ pub fn strategy(fractional: bool) -> BoxedStrategy<Scenario> {
 fn check(tier: Tier, seed: u64) -> i32 {
     let ctx = Ctx::new("C05", tier, seed, "exploration");
     ctx.replay_corpus(&replay);
-    ctx.random("whole-ms", tier.pick(3000, 50_000), &|| strategy(false), &run);
-    ctx.random("fractional", tier.pick(600, 8_000), &|| strategy(true), &run);
+    ctx.random("whole-ms", tier.pick(12_000, 150_000), &|| strategy(false), &run);
+    ctx.random("fractional", tier.pick(2_000, 20_000), &|| strategy(true), &run);
     ctx.finish(
         "random scenarios (tick, epoch, 1-4 hosts/clients with sleep/interval/timeout/sleep_until tasks, late registration, crash/bounce controller); every step checks Sim::elapsed == tick*steps and every in-host observation checks offset/epoch identities, monotonicity, the step window and exact timer firing. Non-trivial = >=4 observations and (a timer length not divisible by the tick, or a late registration, or a crash/bounce). Distinct by scenario hash.",
         &[
